@@ -444,6 +444,9 @@ func (st *provState) compute(v ssa.Value) string {
 			}
 			return "recv"
 		}
+		if b := ParamBindHook(x); b != nil {
+			return st.path(b)
+		}
 		return "p:" + x.Name()
 	case *ssa.FreeVar:
 		if b := FreeVarBinding(x); b != nil {
@@ -474,6 +477,17 @@ func (st *provState) compute(v ssa.Value) string {
 		}
 		return "alloc:" + x.Name() + "@" + x.Parent().Name() + ":" + x.Comment
 	case *ssa.FieldAddr:
+		if GroupFieldHook(x.X.Type(), x.Field) {
+			// a field that only groups fields of its owner is transparent — unless the owner's
+			// construction is in view: then it is the group value that was put there
+			bp := st.path(x.X)
+			if strings.HasPrefix(bp, "&lit{") {
+				if v, ok := litField(bp[1:], fieldName(x.X.Type(), x.Field)); ok && (FieldWriteOnceHook(x.X.Type(), x.Field) || FieldSingleStoreHook(x.X.Type(), x.Field) != nil) {
+					return v
+				}
+			}
+			return bp
+		}
 		if a, ok := x.X.(*ssa.Alloc); ok {
 			// a local struct that a private method fills in (`var stmts insertStmts; err = stmts.prepare(ctx, tx)`):
 			// the field holds what that method stored, read in this function's terms
@@ -481,9 +495,25 @@ func (st *provState) compute(v ssa.Value) string {
 				return v
 			}
 			// field of a local struct: a by-value parameter copy or a literal
-			return st.loadAlloc(a) + "." + fieldName(x.X.Type(), x.Field)
+			la := st.loadAlloc(a)
+			// the spilled copy of a by-value parameter / receiver that is bound to a struct literal of the
+			// caller (`w := connWriter{conn, opt.SendTimeout}; w.ping(ctx)` read inside ping): the field is
+			// what the caller's literal put there
+			if stores := StoresTo(a); len(stores) == 1 && st.boundLit(stores[0].Val) {
+				if v, ok := litField(la, fieldName(x.X.Type(), x.Field)); ok {
+					return v
+				}
+			}
+			return la + "." + fieldName(x.X.Type(), x.Field)
 		}
 		bp := st.path(x.X)
+		if st.boundLit(x.X) {
+			if v, ok := litField(bp, fieldName(x.X.Type(), x.Field)); ok {
+				if _, nested := x.X.(*ssa.FieldAddr); !nested || FieldWriteOnceHook(x.X.Type(), x.Field) {
+					return v
+				}
+			}
+		}
 		// field of an object that a constructor just built (`ss := newSession(id); … ss.id …`): what
 		// was put there, provided nobody assigns that field of that type anywhere else
 		if strings.HasPrefix(bp, "&lit{") {
@@ -493,7 +523,16 @@ func (st *provState) compute(v ssa.Value) string {
 		}
 		return bp + "." + fieldName(x.X.Type(), x.Field)
 	case *ssa.Field:
-		return st.path(x.X) + "." + fieldName(x.X.Type(), x.Field)
+		if GroupFieldHook(x.X.Type(), x.Field) {
+			return st.path(x.X)
+		}
+		bp := st.path(x.X)
+		if st.boundLit(x.X) {
+			if v, ok := litField(bp, fieldName(x.X.Type(), x.Field)); ok {
+				return v
+			}
+		}
+		return bp + "." + fieldName(x.X.Type(), x.Field)
 	case *ssa.IndexAddr:
 		return st.path(x.X) + "[" + idxString(st, x.Index) + "]"
 	case *ssa.Index:
@@ -648,7 +687,7 @@ func (st *provState) loadAlloc(a *ssa.Alloc) string {
 	stores := StoresTo(a)
 	if len(stores) == 0 {
 		// composite literal: stores to the FieldAddrs of a
-		if fs := StructLitFields(a); len(fs) > 0 {
+		if fs := unconditionalLitFields(a); len(fs) > 0 {
 			var names []string
 			for n := range fs {
 				names = append(names, n)
@@ -709,7 +748,7 @@ func (st *provState) call(c *ssa.CallCommon, v ssa.Value) string {
 			exp := sub.path(res)
 			complete := true
 			for _, p := range fn.Params {
-				if refs := p.Referrers(); refs != nil && len(*refs) > 0 && !strings.Contains(exp, sub.bind[p]) {
+				if refs := p.Referrers(); refs != nil && len(*refs) > 0 && !strings.Contains(exp, sub.bind[p]) && !litPartShows(exp, sub.bind[p]) {
 					complete = false
 				}
 			}
@@ -941,6 +980,36 @@ func (st *provState) withLaterFields(lit string, v *ssa.Call) string {
 	return "&lit{" + strings.Join(parts, ",") + "}"
 }
 
+// litPartShows: bound is the rendering of an object whose construction is in view (`&lit{…}`) and
+// exp contains what one of its fields holds — the field was read out of the object.
+func litPartShows(exp, bound string) bool {
+	b := strings.TrimPrefix(bound, "&")
+	if !strings.HasPrefix(b, "lit{") || !strings.HasSuffix(b, "}") {
+		return false
+	}
+	for _, part := range splitTop(b[4 : len(b)-1]) {
+		if i := strings.Index(part, "="); i > 0 && part[i+1:] != "" && strings.Contains(exp, part[i+1:]) {
+			return true
+		}
+	}
+	return false
+}
+
+// LitFields parses a rendered struct literal `lit{a=…,b=…}` (or `&lit{…}`) into its fields.
+func LitFields(lit string) (map[string]string, bool) {
+	b := strings.TrimPrefix(lit, "&")
+	if !strings.HasPrefix(b, "lit{") || !strings.HasSuffix(b, "}") {
+		return nil, false
+	}
+	out := map[string]string{}
+	for _, part := range splitTop(b[4 : len(b)-1]) {
+		if i := strings.Index(part, "="); i > 0 {
+			out[part[:i]] = part[i+1:]
+		}
+	}
+	return out, true
+}
+
 // splitTop splits a literal's body at its top-level commas.
 func splitTop(body string) []string {
 	var parts []string
@@ -1028,10 +1097,87 @@ func SimplifyLitFields(s string) string {
 	return s
 }
 
+// boundLit: v is a parameter that the current reading binds to a struct literal of the caller.
+func (st *provState) boundLit(v ssa.Value) bool {
+	switch x := v.(type) {
+	case *ssa.Parameter:
+		b, ok := st.bind[x]
+		return ok && strings.HasPrefix(b, "lit{")
+	case *ssa.Call:
+		// … or what a private constructor returned by value (`cols := newEventCols(t)`)
+		if h := StaticCallee(&x.Call); PrivateHelper(h) {
+			// (every way out of the constructor returns a built value: a zero-value return, which the
+			// rendering of helper results skips, would make the literal a guess)
+			for _, rb := range ReturnBlocks(h) {
+				for _, rv := range ReturnValues(LastInstr(rb).(*ssa.Return)) {
+					if _, isConst := rv.(*ssa.Const); isConst {
+						return false
+					}
+				}
+			}
+			return strings.HasPrefix(st.path(x), "lit{")
+		}
+	case *ssa.UnOp:
+		if x.Op == token.MUL {
+			if a, ok := x.X.(*ssa.Alloc); ok {
+				if stores := StoresTo(a); len(stores) == 1 {
+					return st.boundLit(stores[0].Val)
+				}
+			}
+		}
+	case *ssa.FieldAddr:
+		// a struct-valued field (possibly embedded) of an object whose construction is in view
+		return strings.HasPrefix(st.path(x.X), "&lit{") && strings.HasPrefix(st.path(x), "lit{")
+	}
+	return false
+}
+
+// GroupFieldHook: field #i of the struct behind t is a later-introduced struct that merely groups
+// fields of its owner (core.installOwner); it does not show in access paths.
+var GroupFieldHook = func(t types.Type, i int) bool { return false }
+
+// ParamBindHook: the one argument a parameter of a grouping type's method is ever bound to — such a
+// method, called from exactly one place, is the owner's statements moved (`c.store.put(eventKey, event)`),
+// and its parameters are named as the caller names what it passes.
+var ParamBindHook = func(p *ssa.Parameter) ssa.Value { return nil }
+
 // FieldWriteOnceHook: field #i of the struct type behind t is assigned only where the object
 // is being built (in a composite literal, or by the function that just got it from its
 // constructor) — installed by the loader, which sees the whole module. Never by default.
 var FieldWriteOnceHook = func(t types.Type, i int) bool { return false }
+
+// unconditionalLitFields: StructLitFields without the fields that are only set on some paths
+// (`w := &T{a: x}; if c { w.b = y }`): a field counts when its store sits in the allocation's
+// own block or on every way to every return of the function.
+func unconditionalLitFields(a *ssa.Alloc) map[string]ssa.Value {
+	fs := StructLitFields(a)
+	if len(fs) == 0 || a.Referrers() == nil {
+		return fs
+	}
+	rbs := ReturnBlocks(a.Parent())
+	for _, ref := range *a.Referrers() {
+		fa, ok := ref.(*ssa.FieldAddr)
+		if !ok || fa.Referrers() == nil {
+			continue
+		}
+		name := fieldName(a.Type(), fa.Field)
+		if _, has := fs[name]; !has {
+			continue
+		}
+		for _, r2 := range *fa.Referrers() {
+			s, ok := r2.(*ssa.Store)
+			if !ok || s.Addr != ssa.Value(fa) || s.Block() == a.Block() {
+				continue
+			}
+			for _, rb := range rbs {
+				if !(s.Block() == rb || s.Block().Dominates(rb)) {
+					delete(fs, name)
+				}
+			}
+		}
+	}
+	return fs
+}
 
 // StructLitFields: for a local struct built field by field (composite
 // literal), the value stored into each field (single store per field).
